@@ -212,14 +212,14 @@ def _cmp(ctx, methods):
     # decision table over orderings
     nums = {'lt': ((2, 0), (3, 0)), 'eq': ((2, 0), (2, 0)), 'gt': ((3, 0), (2, 0)),
             'lt2': ((2, 0), (2, 1)), 'gt2': ((2, 1), (2, 0))}
-    extras = [None, 'a', 'b']
+    extras = [None, 'a', 'b', 'B']      # mixed case: suffixes compare as spelled ('B' < 'a' < 'b')
     cells = 0
     bad = []
     for rel, (sn, on) in nums.items():
         for se, oe in itertools.product(extras, repeat=2):
             val = {'S.nums': sn, 'O.nums': on, 'S.extra': se, 'O.extra': oe}
             try:
-                out = _run_rest(rest, val, alias)
+                out = _run_rest(rest, dict(val), alias)
             except Unsupported as e:
                 ctx.error('C18.D2', '_cmp is not a comparison skeleton: %s' % e)
                 return
